@@ -186,8 +186,45 @@ def e2e(ck, paths, tier):
                          "%s%s used gpo=%g gpe=%g tgpe=%g; expected %s table with overrides: gpo=%g gpe=%g tgpe=%g (%s)" % (
                              "", " ".join(args), p["gpo"], p["gpe"], p["tgpe"], exp["table"], exp["gpo"], exp["gpe"], exp["tgpe"], bad[0]), ctx)
         results[(idx, w, tuple(sorted(vals.items())))] = res.out_bytes
+        # explicit penalties must be the ones used by every thread's merges: same options with 8 threads, same bytes
+        if vals and res.out_bytes is not None:
+            out8 = ck.tmp(".out8")
+            res8 = common.kalign_cli(paths, [f], args=args, nthreads=8, out=out8)
+            ck.count("e2e_runs_repeated_with_8_threads")
+            if not ck.proc_violations(res8.proc, dict(ctx, nthreads=8)) and res8.out_bytes != res.out_bytes:
+                nt1 = "1/2/4"
+                ck.violation("e2e:explicit-penalties-depend-on-thread-count:%s" % an,
+                             "kalign %s gives different output with 8 threads than with %s threads" % (" ".join(args), nt1), dict(ctx, nthreads=8))
 
     common.pmap(work, jobs)
+
+    # a sequence of kalign_run calls with different penalties in ONE process: every call must use its own arguments
+    def work3(t):
+        idx, (kind, recs) = t
+        bt = BT_DNA if kind == "dna" else BT_PROT
+        ty = T_DNA if kind == "dna" else T_PROT
+        f = ck.tmp(".fa")
+        common.write_bytes(f, fmt.write_fasta(recs))
+        sets = [(-1, -1, -1), (40, 7, 3), (-1, -1, -1), (2, 1, 0), (-1, 9, -1)]
+        script = []
+        for k, (a, b, c) in enumerate(sets):
+            script += ["read %d %s" % (k, f), "run %d %d %d %s %s %s" % (k, 1 + (k % 2) * 3, ty, common.fnum(a), common.fnum(b), common.fnum(c)), "dump %d" % k, "free %d" % k]
+        r, lrecs = common.kvdrv(paths, script, scratch=ck.scratch)
+        ctx = {"level": "multi-call", "input": recs, "penalty_sets": sets}
+        if ck.proc_violations(r, ctx, allow_rcs=(0,)):
+            return
+        dumps = [x for x in lrecs if x.get("op") == "dump"]
+        for k, (a, b, c) in enumerate(sets):
+            r1, l1 = common.kvdrv(paths, ["read 0 %s" % f, "run 0 1 %d %s %s %s" % (ty, common.fnum(a), common.fnum(b), common.fnum(c)), "dump 0", "free 0"], scratch=ck.scratch)
+            if ck.proc_violations(r1, ctx, allow_rcs=(0,)):
+                continue
+            d1 = next((x for x in l1 if x.get("op") == "dump"), None)
+            ck.evaluated(("multi", idx, k))
+            ck.count("multi_call_runs_compared")
+            if d1 is None or k >= len(dumps) or [x["seq"] for x in d1["rows"]] != [x["seq"] for x in dumps[k]["rows"]]:
+                ck.violation("multi-call:penalties-of-an-earlier-call-used", "call %d of a sequence of kalign_run calls (gpo,gpe,tgpe = %s) differs from the same call alone in a fresh process" % (k, (a, b, c)), ctx)
+
+    common.pmap(work3, list(enumerate(inputs[: (4 if tier == "quick" else 20)])))
 
     # explicit defaults == implicit defaults, and CLI == library with the corresponding constant
     jobs2 = []
